@@ -20,6 +20,7 @@ mod fmt;
 mod fieldspec;
 mod fields;
 mod c04;
+mod c08;
 
 use std::collections::HashMap;
 
@@ -72,6 +73,7 @@ fn main() {
         "c09" => c01::run_c09(&o),
         "fields" => fields::run(&o),
         "c04" => c04::run(&o),
+        "c08" => c08::run(&o),
         other => {
             eprintln!("unknown stream {other}");
             std::process::exit(2);
